@@ -789,7 +789,7 @@ func main() {
 	}
 
 	// ---------------- random transactions
-	nTx := o.Count(260, 4000)
+	nTx := o.Count(170, 4000)
 	for i := 0; i < nTx; i++ {
 		r := rng.Fork(fmt.Sprintf("tx%d", i))
 		nIn, nOut := count(r), count(r)
@@ -815,7 +815,7 @@ func main() {
 	}
 
 	// ---------------- raw / malformed byte strings
-	nRaw := o.Count(220, 4000)
+	nRaw := o.Count(150, 4000)
 	for i := 0; i < nRaw; i++ {
 		r := rng.Fork(fmt.Sprintf("raw%d", i))
 		var raw []byte
